@@ -11,6 +11,8 @@ TECH_TRACE = "TLA+ specification model-checked by TLC + trace validation of reco
 
 CODEC_MC = dict(module="MC_Codec", quick="MC_Codec.cfg", thorough="MC_Codec_T.cfg", workers=8)
 
+F64_MC = dict(module="MC_F64", quick="MC_F64.cfg", workers=2)
+
 WRITER_MC = dict(module="MC_Writer", quick="MC_Writer.cfg", thorough="MC_Writer_T.cfg", workers=8)
 WRITER_STAGE = dict(cmd="writer", spec="Trace_Writer", histfile=True,
                     quick=dict(chunks=8, maxlen=3, deeplen=4, deeptypes=1, random=6, modeltypes=3),
@@ -235,7 +237,7 @@ PROPS = {
                    "(generic/typed x sequential/random/collecting x with/without .shx x cursors/files/one-liners) is validated by TLC",
         level_note="trusted: TLC, the harness's id<->f64 tables and its use of public constructors/accessors; claims hold for the explored cases",
         technique=TECH_TRACE,
-        mc=[CODEC_MC],
+        mc=[CODEC_MC, F64_MC],
         stages=[dict(cmd="codec", spec="Trace_Codec", gen="Gen_Shapes",
                      quick=dict(chunks=6, cases=8, large=1),
                      thorough=dict(chunks=16, cases=120, large=8, sweep=1))],
@@ -382,10 +384,12 @@ PROPS = {
 # sentences added to the level texts as the drivers grew (rounds 4 and 5 of the seeded changes, DESIGN 10.5)
 LEVEL_TEXT_ADDENDA = {
     "C12": "; UNBOUNDED: TLAPS proves (spec/proofs/WriterDirty) that a finalize failing anywhere leaves the writer dirty, so the retry rewrites both headers",
-    "C01": "; read-back also through the Iterator adaptors nth/count/last; a size-threshold sweep (serialised sizes on and next to powers of two); files on disk under lower-case, upper-case and dotted names",
+    "C01": "; RAW BITS: shapes over arbitrary 64-bit patterns (-0.0, subnormals, NaN payloads, neighbours of NO_DATA) are compared byte by "
+           "byte under the rules of spec/F64Bits.tla, whose operators are themselves validated against the processor on recorded "
+           "comparisons and model-checked (MC_F64); read-back also through the Iterator adaptors nth/count/last; a size-threshold sweep (serialised sizes on and next to powers of two); files on disk under lower-case, upper-case and dotted names",
     "C02": "; destinations handed over with their cursor away from 0; record numbers and lengths after writes that failed cleanly",
     "C03": "; every generated file is also read by path and through read_shapes; stored boxes that are all-zero or partly zero",
-    "C05": "; fault runs: a write that failed before emitting a byte must not count for the header box; UNBOUNDED: TLAPS proves "
+    "C05": "; per-shape and header boxes of the raw-bit cases by the numeric order of F64Bits; fault runs: a write that failed before emitting a byte must not count for the header box; UNBOUNDED: TLAPS proves "
            "(spec/proofs/WriterBox, 135 obligations) that for any number of shapes the incrementally grown range is exactly the "
            "least low end / greatest high end of the shapes written and is unset exactly when none was",
     "C07": "; the same inputs as files on disk through ShapeReader::from_path and read_shapes",
